@@ -164,10 +164,9 @@ func decide(s Src, b *Built, model map[string]*installed, overwrite bool) verdic
 		case len(execs) >= 2: // "MUST contain one and only one valid plugin executable file"
 			return refuse("unusable-source")
 		case len(execs) == 1:
+			// a second file named notation-* without the executable bit is one of the "other files that
+			// directory contains": the executable is the plugin, wherever the other file sorts
 			cand = execs[0]
-			if len(b.Candidates) > 1 {
-				v.loose = append(v.loose, "second-nonexec-candidate")
-			}
 		case len(b.Candidates) == 1: // documented: the sole candidate is made executable and installed
 			cand = b.Candidates[0]
 			v.soleNonExec = true
